@@ -1438,6 +1438,104 @@ class Discharger:
         n = len(self.defs.defs.get(local, []))
         return n == 0 if 1 <= local <= self.fn.argc else n == 1
 
+    def _str_base(self, op, depth=8):
+        """identity of the string slice an operand refers to, through reborrows and copies of single-definition locals: (local, projection text)"""
+        p = op_place(op)
+        for _ in range(depth):
+            if p is None:
+                return None
+            if p["p"] not in ([], ["*"]):
+                return (p["l"], json.dumps(p["p"], sort_keys=True))
+            d = self.defs.single(p["l"])
+            if d is None or d[0] != "st" or d[3]["k"] != "=":
+                return (p["l"], "")
+            rv = d[3]["rv"]
+            if rv["k"] == "ref":
+                p = rv["pl"]
+                if p["p"] == ["*"]:
+                    p = {"l": p["l"], "p": []}
+                continue
+            if rv["k"] == "use":
+                p = op_place(rv["op"])
+                continue
+            return (p["l"], "")
+        return None
+
+    SUBSLICE_CALLS = ("trim", "trim_end", "trim_start", "trim_matches", "trim_end_matches", "trim_start_matches", "trim_ascii", "trim_ascii_end",
+                      "trim_ascii_start", "trim_left", "trim_right")
+
+    def str_idiom_rule(self, site):
+        """two facts about std's str API: (a) `a.len() - b.len()` cannot underflow when b is `a.trim*(..)` (a sub-slice of a);
+        (b) `&s[..i]`, `&s[i..]` cannot panic when i is the payload of `s.find(..)` / `s.rfind(..)` on the same s (a character boundary <= len)"""
+        fn = self.fn
+        if site.kind == "K3" and site.what == "Overflow:Sub":
+            a, b = site.node["ops"]
+            ca, cb = self._producer_call(a), self._producer_call(b)
+            if ca is None or cb is None:
+                return None
+            if not (strip_generics(callee_name(ca) or "").endswith("str>::len") and strip_generics(callee_name(cb) or "").endswith("str>::len")):
+                return None
+            whole = self._str_base(ca["args"][0])
+            # b's receiver: the result of a trim call on `whole`
+            p = op_place(cb["args"][0])
+            for _ in range(6):
+                if p is None:
+                    return None
+                d = self.defs.single(p["l"])
+                if d is None:
+                    return None
+                if d[0] == "call":
+                    n = strip_generics(callee_name(d[3]) or "")
+                    if n.startswith("core::str::<impl str>::") and n.split("::")[-1] in self.SUBSLICE_CALLS and d[3]["args"]:
+                        if whole is not None and self._str_base(d[3]["args"][0]) == whole:
+                            return "str: `a.len() - a.%s(..).len()` — the trimmed string is a sub-slice of a" % n.split("::")[-1]
+                    return None
+                rv = d[3].get("rv", {})
+                if rv.get("k") == "ref":
+                    p = {"l": rv["pl"]["l"], "p": []} if rv["pl"]["p"] in ([], ["*"]) else None
+                elif rv.get("k") == "use":
+                    p = op_place(rv["op"])
+                else:
+                    return None
+            return None
+        if site.kind == "K4" and site.what.startswith("index:") and "for str" in site.what and len(site.node.get("args") or []) == 2:
+            base = self._str_base(site.node["args"][0])
+            rp = op_place(site.node["args"][1])
+            rd = self.defs.single(rp["l"]) if rp is not None and not rp["p"] else None
+            if base is None or not (rd and rd[0] == "st" and rd[3]["k"] == "=" and rd[3]["rv"]["k"] == "agg"):
+                return None
+            adt = str(rd[3]["rv"].get("adt", ""))
+            if not (adt.endswith("RangeTo") or adt.endswith("RangeFrom")):
+                return None
+            for o in rd[3]["rv"]["ops"]:
+                # the bound: payload of find/rfind on the same string, on its Some arm
+                q = op_place(o)
+                ok = False
+                for _ in range(4):
+                    if q is None:
+                        break
+                    d = self.defs.single(q["l"])
+                    if d is None or d[0] != "st" or d[3]["k"] != "=" or d[3]["rv"]["k"] != "use":
+                        break
+                    src = op_place(d[3]["rv"]["op"])
+                    if src is None:
+                        break
+                    if src["p"] and isinstance(src["p"][0], dict) and src["p"][0].get("n") == "Some" and ("dc" in src["p"][0] or "v" in src["p"][0]):
+                        # `(opt as Some).0`
+                        dd = self.defs.single(src["l"])
+                        if dd and dd[0] == "call":
+                            n = strip_generics(callee_name(dd[3]) or "")
+                            if n in ("core::str::<impl str>::find", "core::str::<impl str>::rfind") and self._str_base(dd[3]["args"][0]) == base:
+                                ok = True
+                        break
+                    if src["p"]:
+                        break
+                    q = src
+                if not ok:
+                    return None
+            return "str: sliced at the position `find` returned for the same string (a character boundary within it)"
+        return None
+
     def dead_arm_rule(self, site):
         """an explicit panic (`unreachable!()`, `panic!()`) in the fall-through arm of a `match` on an integer whose interval — from its type,
         the dominating guards and % / & >> by literals — is covered by the arms that are listed"""
